@@ -525,6 +525,9 @@ func (p *Proc) wfAssume(st *State, v Val) {
 			return
 		}
 		st.assume(App("slice_wf", SBool, v.T))
+		// backing arrays reachable from the state are allocated (a fresh array never aliases them)
+		al := p.heapGet(st, "AL:", ArrSort(SInt, SBool))
+		st.assume(Or(Eq(SlArr(v.T), IntLit(0)), Sel(al, SlArr(v.T))))
 	case SInt:
 		if strings.HasPrefix(v.T.S, "(") || strings.HasPrefix(v.T.S, "|") {
 			if b, ok := v.Typ.Underlying().(*types.Basic); ok && b.Info()&types.IsInteger != 0 {
@@ -536,7 +539,12 @@ func (p *Proc) wfAssume(st *State, v Val) {
 				}
 			} else {
 				switch v.Typ.Underlying().(type) {
-				case *types.Pointer, *types.Map, *types.Chan, *types.Signature:
+				case *types.Pointer, *types.Map:
+					st.assume(Le(IntLit(0), v.T))
+					// every reference reachable from the state is allocated (fresh objects never alias them)
+					al := p.heapGet(st, "AL:", ArrSort(SInt, SBool))
+					st.assume(Or(Eq(v.T, IntLit(0)), Sel(al, v.T)))
+				case *types.Chan, *types.Signature:
 					st.assume(Le(IntLit(0), v.T))
 				}
 			}
